@@ -5,6 +5,7 @@ import EG.Driver.Line
 import EG.Model.ThickLine
 import EG.Model.ThickPolyline
 import EG.Model.ThickTriangle
+import EG.Model.JoinGuards
 namespace EG.Driver
 open EG
 
@@ -70,6 +71,37 @@ private def stuckOr (o : Option String) : String :=
   | some s => s
   | none => "stuck"
 
+/-- One guard bit: `1` holds, `0` fails, `-` the theorem's other hypotheses exclude the op. -/
+private def guardBit (applies : Bool) (b : Bool) : Char :=
+  if !applies then '-' else if b then '1' else '0'
+
+/-- Guard bits of a `thick.polyline` op, in this order (tools/check.py `GUARD_BITS` names them):
+`PolyRectsInRange` (Props/C01/Polyline.lean), `PolyBBoxGuard`, its `chainOK` conjunct alone
+(Props/C02/JoinsBBox.lean; both `-` for widths < 2, which the guarded theorems exclude). The Bool
+functions are proved equivalent to the guards in Props/C01/GuardBits.lean, Props/C02/GuardBits.lean. -/
+private def polyGuardBits (pl : Polyline) (w : Nat) (dr : Joins.PolyDraw) : String :=
+  String.ofList [
+    guardBit true (Joins.GuardBits.polyRectsInRange dr),
+    guardBit (2 ≤ w) (Joins.GuardBits.polyBBoxGuard pl w),
+    guardBit (2 ≤ w) (Joins.GuardBits.polyChainOK pl w)]
+
+/-- Guard bits of a `thick.triangle` op, in this order: `TriRectsInRange` (Props/C01/Triangle.lean),
+`TriTopGuard`, `TriStrokeGuard`, its three `adjOK` conjuncts alone (both `-` unless the width is >= 2
+and the alignment is not Inside: the other hypotheses of the two guarded theorems), `TriOutlineGuard`
+(Props/C02/JoinsBBox.lean; `-` unless the width is >= 2, the alignment is Inside and the triangle is not
+collapsed: the one case no unguarded theorem covers, see the `[V]` line there). `collapsed` is
+`is_collapsed` of the clockwise-sorted triangle, the `c=` field of the result line. -/
+private def triGuardBits (tri : Joins.Tri) (style : Joins.TriStyle) (calls : List (Rect × Nat))
+    (collapsed : Bool) : String :=
+  let wide := decide (2 ≤ style.strokeWidth)
+  let inside := style.strokeAlignment == .inside
+  String.ofList [
+    guardBit true (Joins.GuardBits.triRectsInRange calls),
+    guardBit true (Joins.GuardBits.triTopGuard tri),
+    guardBit (wide && !inside) (Joins.GuardBits.triStrokeGuard tri style),
+    guardBit (wide && !inside) (Joins.GuardBits.triAdjOK tri style),
+    guardBit (wide && inside && !collapsed) (Joins.GuardBits.triOutlineGuard tri style)]
+
 def handleThick (stream : String) (t : Toks) : Option String :=
   match stream with
   | "thick.points" =>
@@ -97,7 +129,7 @@ def handleThick (stream : String) (t : Toks) : Option String :=
       let dr ← Joins.drawStyled pl w
       let px ← Joins.pixels pl w
       let (ks, sk) ← polyKinds vs w
-      pure s!"bb={fmtRect bb} k={ks} s={sk} draw={fmtPolyDraw dr} px={fmtPtsDigest px}"))
+      pure s!"bb={fmtRect bb} k={ks} s={sk} draw={fmtPolyDraw dr} px={fmtPtsDigest px} g={polyGuardBits pl w dr}"))
   | "thick.triangle" =>
     let (d, t) := t.pt
     let (a, t) := t.pt
@@ -119,7 +151,7 @@ def handleThick (stream : String) (t : Toks) : Option String :=
       let px ← Joins.triPixels tri style
       let d := if dr.isEmpty then "-" else "fs:" ++ fmtPtsDigest (colRectsAsPts dr)
       let (ks, col) ← triKinds tri w align.toOffset
-      pure s!"bb={fmtRect bb} k={ks} c={if col then 1 else 0} draw={d} px={fmtPtsDigest (colPixAsPts px)}"))
+      pure s!"bb={fmtRect bb} k={ks} c={if col then 1 else 0} draw={d} px={fmtPtsDigest (colPixAsPts px)} g={triGuardBits tri style dr col}"))
   | _ => none
 
 end EG.Driver
